@@ -88,6 +88,8 @@ pub struct SiteCounts {
     pub breaks_added: usize,
     /// line breaks before a binary operator / arrow inside brackets
     pub op_breaks: usize,
+    /// redundant parentheses around atoms (variables, literals)
+    pub atom_parens: usize,
     pub nested_sugar: usize,
 }
 
@@ -124,6 +126,8 @@ pub struct Printer<'a> {
     sugar_depth: usize,
     /// > 0 while the text being produced sits directly inside (...) / [...] / {...} (newlines are skipped there)
     brackets: usize,
+    /// > 0 while an atom must be printed bare (callee names, assignment targets)
+    no_atom_parens: usize,
     unreachable_lines: HashMap<u32, usize>,
     sites: SiteCounts,
     annot_taken: Vec<bool>,
@@ -217,6 +221,7 @@ impl<'a> Printer<'a> {
             fn_depth: 0,
             sugar_depth: 0,
             brackets: 0,
+            no_atom_parens: 0,
             unreachable_lines: HashMap::new(),
             sites: SiteCounts::default(),
             annot_taken: Vec::new(),
@@ -493,7 +498,13 @@ impl<'a> Printer<'a> {
 
     fn callee_text(&mut self, f: &Expr) -> String {
         match &f.kind {
-            EKind::Var(_) | EKind::Field(..) | EKind::Call(..) => self.expr(f),
+            EKind::Var(_) | EKind::Field(..) | EKind::Call(..) => {
+                // the callee of prime / arrow calls must stay a plain name
+                self.no_atom_parens += 1;
+                let s = self.expr(f);
+                self.no_atom_parens -= 1;
+                s
+            }
             _ => format!("({})", self.expr(f)),
         }
     }
@@ -596,7 +607,20 @@ impl<'a> Printer<'a> {
     pub fn expr_t(&mut self, x: &Expr, tail: bool) -> String {
         let s = self.expr_inner(x, tail);
         match &x.kind {
-            EKind::Var(_) | EKind::Int(_) | EKind::Str(_) | EKind::Bool(_) => s,
+            // redundant parentheses around an atom (`(t)[0]`, `1 + (x)`), more rarely than around compound expressions
+            EKind::Var(_) | EKind::Int(_) | EKind::Str(_) | EKind::Bool(_) => {
+                if self.no_atom_parens > 0 {
+                    return s;
+                }
+                let c = take(&self.plan.parens, &mut self.cur.parens);
+                if c & 7 == 7 {
+                    self.sites.parens_added += 1;
+                    self.sites.atom_parens += 1;
+                    format!("({})", s)
+                } else {
+                    s
+                }
+            }
             // statement-position if/case (type void) are statements, not parenthesisable expressions
             EKind::If(..) | EKind::Case { .. } if x.ty == Ty::Void => s,
             _ => self.paren_opt(s),
@@ -859,10 +883,12 @@ impl<'a> Printer<'a> {
                 let tt = match target {
                     LValue::Var(v) => this.name(*v),
                     LValue::Field(o, n) => {
+                        this.no_atom_parens += 1;
                         let ot = match &o.kind {
                             EKind::Var(_) | EKind::Field(..) | EKind::Call(..) => this.expr(o),
                             _ => format!("({})", this.expr(o)),
                         };
+                        this.no_atom_parens -= 1;
                         format!("{}.{}", ot, n)
                     }
                 };
